@@ -3,9 +3,11 @@ import BV.Drive.Util
 /-
 Line protocol of the `adapters` engine (leading token `adapters` stripped by `Drive.lean`).
 
-  W <bufsize> <cfg> <script> <tail> <fscript> <calls> <trace>      CompressorWriter (std layer)
+  W <bufsize> <cfg> <script> <tail> <fscript> <calls> <trace>      CompressorWriterCustomAlloc (std layer; `Wc`:
+                                                                    CompressorWriterCustomIo over IntoIoWriter, no restocking)
       calls (comma separated): w<hex> = write(bytes) · f = flush() · c = into_inner()
-  R <bufsize> <cfg> <srchex> <script> <tail> <calls> <trace>       CompressorReader (std layer)
+  R <bufsize> <cfg> <srchex> <script> <tail> <calls> <trace>       CompressorReaderCustomAlloc (std layer; `Rc`:
+                                                                    CompressorReaderCustomIo over IntoIoReader)
       calls: r<n> = read(&mut [0; n]) · t = copy_to_front()
   C <ib> <ob> <cfg> <srchex> <rscript> <rtail> <wscript> <wtail> <trace>
                                                                     BrotliCompressCustomAlloc
@@ -108,34 +110,34 @@ def parseWCall (t : String) : Option WCall :=
   | _ => none
 
 /-- returns (state, results newest first, stopped?) -/
-def runW : Writer Replay → List WCall → List String → Writer Replay × List String × Bool
+def runW (std : Bool) : Writer Replay → List WCall → List String → Writer Replay × List String × Bool
   | w, [], acc => (w, acc, false)
   | w, c :: rest, acc =>
     match c with
     | .write b =>
-      match Writer.stdWrite replayEnc fuel w b with
-      | (w', .done (.ok n)) => runW w' rest (s!"ok{n}" :: acc)
-      | (w', .done (.error e)) => runW w' rest (s!"err:{errTok e}" :: acc)
+      match (if std then Writer.stdWrite replayEnc fuel w b else Writer.write replayEnc fuel w b) with
+      | (w', .done (.ok n)) => runW std w' rest (s!"ok{n}" :: acc)
+      | (w', .done (.error e)) => runW std w' rest (s!"err:{errTok e}" :: acc)
       | (w', .panic) => (w', "panic" :: acc, true)
       | (w', .livelock) => (w', "livelock" :: acc, true)
     | .flush =>
-      match Writer.stdFlush replayEnc fuel w with
-      | (w', .done (.ok ())) => runW w' rest ("ok" :: acc)
-      | (w', .done (.error e)) => runW w' rest (s!"err:{errTok e}" :: acc)
+      match (if std then Writer.stdFlush replayEnc fuel w else Writer.flush replayEnc fuel w) with
+      | (w', .done (.ok ())) => runW std w' rest ("ok" :: acc)
+      | (w', .done (.error e)) => runW std w' rest (s!"err:{errTok e}" :: acc)
       | (w', .panic) => (w', "panic" :: acc, true)
       | (w', .livelock) => (w', "livelock" :: acc, true)
     | .close =>
       match Writer.intoInner replayEnc fuel w with
-      | (w', .done ()) => runW w' rest ("ok" :: acc)
+      | (w', .done ()) => runW std w' rest ("ok" :: acc)
       | (w', .panic) => (w', "panic" :: acc, true)
       | (w', .livelock) => (w', "livelock" :: acc, true)
 
-def handleW (bufsize script tail fscript calls trace : String) : String :=
+def handleW (std : Bool) (bufsize script tail fscript calls trace : String) : String :=
   match bufsize.toNat?, parseScript script, parseTail tail, parseScript fscript,
         parseList parseWCall "," calls, parseTrace trace with
   | some b, some sc, some tl, some fs, some cs, some tr =>
     let sink : Sink := ⟨sc, tl, fs, [], []⟩
-    let (w, res, stopped) := runW (Writer.new b (Replay.init tr) sink) cs []
+    let (w, res, stopped) := runW std (Writer.new b (Replay.init tr) sink) cs []
     trailer res w.sink.log (if stopped then none else some w.bufAcc) (if stopped then none else some w.elog.length)
       w.enc.bad s!"sink={bytesToHex w.sink.got}"
   | _, _, _, _, _, _ => "bad-op"
@@ -151,26 +153,26 @@ def parseRCall (t : String) : Option RCall :=
   | 'r' :: rest => (String.ofList rest).toNat?.map .read
   | _ => none
 
-def runR : Reader Replay → List RCall → List String → Reader Replay × List String × Bool
+def runR (std : Bool) : Reader Replay → List RCall → List String → Reader Replay × List String × Bool
   | r, [], acc => (r, acc, false)
   | r, c :: rest, acc =>
     match c with
     | .read n =>
-      match Reader.read replayEnc fuel r n with
-      | (r', .done (.ok bs)) => runR r' rest (s!"ok:{bytesToHex bs}" :: acc)
-      | (r', .done (.error e)) => runR r' rest (s!"err:{errTok e}" :: acc)
+      match (if std then Reader.stdRead replayEnc fuel r n else Reader.read replayEnc fuel r n) with
+      | (r', .done (.ok bs)) => runR std r' rest (s!"ok:{bytesToHex bs}" :: acc)
+      | (r', .done (.error e)) => runR std r' rest (s!"err:{errTok e}" :: acc)
       | (r', .panic) => (r', "panic" :: acc, true)
       | (r', .livelock) => (r', "livelock" :: acc, true)
     | .toFront =>
       match r.copyToFront with
-      | some r' => runR r' rest ("-" :: acc)
+      | some r' => runR std r' rest ("-" :: acc)
       | none => (r, "panic" :: acc, true)
 
-def handleR (bufsize src script tail calls trace : String) : String :=
+def handleR (std : Bool) (bufsize src script tail calls trace : String) : String :=
   match bufsize.toNat?, parseScript script, parseTail tail, parseList parseRCall "," calls, parseTrace trace with
   | some b, some sc, some tl, some cs, some tr =>
     let source : Source := ⟨hexToBytes src, sc, tl, []⟩
-    let (r, res, stopped) := runR (Reader.new b (Replay.init tr) source) cs []
+    let (r, res, stopped) := runR std (Reader.new b (Replay.init tr) source) cs []
     trailer res r.src.log (if stopped then none else some r.bufAcc) (if stopped then none else some r.elog.length)
       r.enc.bad s!"left={r.src.data.length}"
   | _, _, _, _, _ => "bad-op"
@@ -195,8 +197,10 @@ def handleC (ib ob src rscript rtail wscript wtail trace : String) : String :=
 
 def handle (args : List String) : String :=
   match args with
-  | ["W", b, _cfg, sc, tl, fs, calls, tr] => handleW b sc tl fs calls tr
-  | ["R", b, _cfg, src, sc, tl, calls, tr] => handleR b src sc tl calls tr
+  | ["W", b, _cfg, sc, tl, fs, calls, tr] => handleW true b sc tl fs calls tr
+  | ["Wc", b, _cfg, sc, tl, fs, calls, tr] => handleW false b sc tl fs calls tr
+  | ["R", b, _cfg, src, sc, tl, calls, tr] => handleR true b src sc tl calls tr
+  | ["Rc", b, _cfg, src, sc, tl, calls, tr] => handleR false b src sc tl calls tr
   | ["C", ib, ob, _cfg, src, rs, rt, ws, wt, tr] => handleC ib ob src rs rt ws wt tr
   | _ => "bad-op"
 
